@@ -55,6 +55,19 @@ func (m *c11Mon) after(h *H, s *step) {
 		if s.R.OK {
 			m.checkForwarded(h, s, sid)
 		}
+		// "when a session's tokens have expired and it holds a refresh token, the check performs a refresh-grant
+		// exchange": a session clearly inside its own limits whose required tokens ran out more than a second ago
+		// is neither answered from the stale tokens nor ended without an exchange
+		if exp, ss := m.cur[sid], h.issued[sid]; exp != nil && ss != nil && s.Kind == "app" && exp.RT != "" && !s.R.FaultFired() && w.Opts.Idle == 0 {
+			due := exp.IDExp.Before(s.Now.Add(-time.Second))
+			if w.Cfg.GetAccessToken() != nil && !exp.ATExp.IsZero() && exp.ATExp.Before(s.Now.Add(-time.Second)) {
+				due = true
+			}
+			insideAbs := w.Opts.Abs == 0 || s.Now.Before(ss.Created.Add(w.Opts.Abs-time.Second))
+			if due && insideAbs && len(s.Presented) == 1 {
+				c.Violation("expired-session-not-refreshed", "step #%d at %v: session %s holds refresh token %q, its tokens expired (id %v, access %v) and it is inside its limits, but the check made no refresh exchange and answered %v", s.N, s.Now.Format("15:04:05.000"), short(sid, 12), exp.RT, exp.IDExp.Format("15:04:05"), exp.ATExp.Format("15:04:05.000"), s.R)
+			}
+		}
 		return
 	}
 	tc := refreshCall
